@@ -5,6 +5,7 @@ import (
 	"math/rand"
 	"strings"
 	"testing"
+	"time"
 
 	"nrisim/c15types"
 
@@ -25,8 +26,13 @@ type C09W struct {
 	Updates int    `json:"updates"`            // updates the plugin returns from Synchronize
 	NoSync  bool   `json:"no_sync,omitempty"`  // the plugin has no Synchronize handler: the stub answers the (split) synchronization itself
 	SyncErr string `json:"sync_err,omitempty"` // "-" or a flavour of ErrKinds: the plugin's Synchronize handler deliberately returns an error
-	CutDir  int    `json:"cut_dir,omitempty"`
-	CutOff  int    `json:"cut_off,omitempty"` // > 0: the plugin's connection is cut after this many bytes of the given direction (counted from the start of synchronization)
+	// SlowMs > 0: the run has a finite request timeout (TreqMs) and the plugin's Synchronize handler takes
+	// SlowMs, longer than that, to answer. Nothing is demanded about the outcome beyond the general oracles
+	// (one handler invocation at most, no activation after a failed synchronization, the runtime lives on).
+	TreqMs int `json:"treq_ms,omitempty"`
+	SlowMs int `json:"slow_ms,omitempty"`
+	CutDir int `json:"cut_dir,omitempty"`
+	CutOff int `json:"cut_off,omitempty"` // > 0: the plugin's connection is cut after this many bytes of the given direction (counted from the start of synchronization)
 }
 
 func c09Gen(rng *rand.Rand, conf string, idx int) any {
@@ -74,6 +80,9 @@ func c09Gen(rng *rand.Rand, conf string, idx int) any {
 		if w.SyncErr == "" {
 			w.SyncErr = "-"
 		}
+	} else if rng.Intn(6) == 0 {
+		w.TreqMs = 500 + rng.Intn(2000)
+		w.SlowMs = w.TreqMs*3/2 + rng.Intn(3*w.TreqMs)
 	}
 	return w
 }
@@ -153,7 +162,14 @@ func c09Run(t *testing.T, wl any, sc SchedCfg) *Result {
 		res := e.Res
 		e.S.IdleLimit = 100
 		e.S.NoChunk = w.LimitKB == 0 // multi-megabyte segments: no need to split them byte-wise
-		h := NewH1(e, hugeTimeout, hugeTimeout)
+		treq := hugeTimeout
+		if w.SlowMs > 0 {
+			treq = time.Duration(w.TreqMs) * time.Millisecond
+		}
+		if w.SlowMs > 0 {
+			e.S.IdleLimit = int(time.Duration(w.SlowMs+w.TreqMs)*time.Millisecond/e.S.Quantum) + 300
+		}
+		h := NewH1(e, treq, hugeTimeout)
 		pods, ctrs, maxObj := c09State(w)
 		h.Pods, h.Ctrs = pods, ctrs
 		lim := w.limit()
@@ -173,6 +189,15 @@ func c09Run(t *testing.T, wl any, sc SchedCfg) *Result {
 			h.Script = func(plugin, rpc, token string) *Reply {
 				if plugin == "syn" && rpc == "Synchronize" {
 					return &Reply{Err: "cannot take this state", ErrKind: kind}
+				}
+				return nil
+			}
+		}
+		if w.SlowMs > 0 {
+			regime = "handler-slow"
+			h.Script = func(plugin, rpc, token string) *Reply {
+				if plugin == "syn" && rpc == "Synchronize" {
+					return &Reply{SleepMs: w.SlowMs}
 				}
 				return nil
 			}
